@@ -10,6 +10,11 @@
 //   H id X Y hash r s         sm2.Verify(pub(X,Y), hash, r, s)                -> ok 1 | ok 0
 //   P id X Y msg sig          pub(X,Y).Verify(msg, sig)                       -> ok 1 | ok 0
 //   D id X Y uid msg          pub(X,Y).Sm3Digest(msg, uid)                    -> ok <digest-hex> | err
+//   W id kind X Y msg sig     consumers of the verifier (anchors of C01), same catalogue as P:
+//                             kind s: gmtls verifyHandshakeSignature(signatureSM2, *sm2.PublicKey, ...)   (hook)
+//                             kind e: gmtls verifyHandshakeSignature(signatureECDSA, *ecdsa.PublicKey on the SM2 curve, ...)   (hook)
+//                             kind x: x509 (*Certificate).CheckSignature(SM2WithSM3, msg, sig), key *ecdsa.PublicKey on the SM2 curve
+//                             -> ok 1 | ok 0   (1 = no error)
 //   C id d g m streams msgs   concurrent leg: g goroutines released together, goroutine j signs its m messages
 //                             msgs[j*m .. j*m+m-1] one after the other with sm2.Sm2Sign(key(d), msg, nil, rd_j), rd_j its
 //                             OWN deterministic reader over streams[j] whose Read yields the processor (Gosched + a few
@@ -26,6 +31,7 @@ package main
 import (
 	"bufio"
 	"bytes"
+	"crypto/ecdsa"
 	"fmt"
 	"io"
 	"math/big"
@@ -36,7 +42,9 @@ import (
 	"sync"
 	"time"
 
+	"github.com/tjfoc/gmsm/gmtls"
 	"github.com/tjfoc/gmsm/sm2"
+	"github.com/tjfoc/gmsm/x509"
 	"verifharness/internal/hx"
 )
 
@@ -215,6 +223,18 @@ func runCase(line string) string {
 				return "err"
 			}
 			return "ok " + hx.Hex(dg)
+		case "W":
+			X, Y, msg, sig := unz(f[3]), unz(f[4]), hx.UnHex(f[5]), hx.UnHex(f[6])
+			switch f[2] {
+			case "s":
+				return b2s(gmtls.VerifVerifyHandshakeSignatureSM2(pub(X, Y), msg, sig) == nil)
+			case "e":
+				return b2s(gmtls.VerifVerifyHandshakeSignatureECDSA(&ecdsa.PublicKey{Curve: sm2.P256Sm2(), X: X, Y: Y}, msg, sig) == nil)
+			case "x":
+				c := &x509.Certificate{PublicKey: &ecdsa.PublicKey{Curve: sm2.P256Sm2(), X: X, Y: Y}}
+				return b2s(c.CheckSignature(x509.SM2WithSM3, msg, sig) == nil)
+			}
+			return "BADCASE"
 		case "C":
 			g, _ := strconv.Atoi(f[3])
 			m, _ := strconv.Atoi(f[4])
@@ -314,6 +334,10 @@ func (g *genT) H(X, Y *big.Int, hash []byte, r, s *big.Int, expect, what string)
 }
 func (g *genT) P(X, Y *big.Int, msg, sig []byte, expect, what string) {
 	g.emit(fmt.Sprintf("P %d %s %s %s %s", g.next(), zs(X), zs(Y), hx.Hex(msg), hx.Hex(sig)), expect, what)
+	// the consumers named by the property's anchors must decide exactly like the strict verifier
+	for _, kind := range []string{"s", "e", "x"} {
+		g.emit(fmt.Sprintf("W %d %s %s %s %s %s", g.next(), kind, zs(X), zs(Y), hx.Hex(msg), hx.Hex(sig)), expect, what+" via consumer "+kind)
+	}
 }
 func (g *genT) D(X, Y *big.Int, uid, msg []byte, what string) {
 	g.emit(fmt.Sprintf("D %d %s %s %s %s", g.next(), zs(X), zs(Y), uidS(uid), hx.Hex(msg)), "any", what)
